@@ -19,7 +19,7 @@ ANCHORS = ['pycaption.scc:SCCWriter.write', 'pycaption.scc:SCCWriter._layout_lin
            'pycaption.scc:SCCWriter._format_timestamp']
 REQUIRE = {'sets_written': 100, 'captions_read_back': 200, 'just_feasible_spacings': 30, 'long_words': 30,
            'wrapped_lines': 50, 'bytes_parity_checked': 5000, 'rows_decoded': 300, 'four_or_more_rows': 20,
-           'edm_line_inside_next_load_window': 5}
+           'edm_line_inside_next_load_window': 5, 'captions_filling_all_15_rows': 10}
 
 CW = Fraction(1001000, 30)
 ALLOWED = ''.join(ch for code, ch in sorted(E.BASIC.items()) if code != 0x7f and ch != ' ')
@@ -92,6 +92,11 @@ def gen_case(rng, tag):
     caps = []
     for _ in range(n):
         lines = [gen_line(rng, 80, hyphens) for _ in range(rng.randrange(1, 5))]
+        if rng.random() < 0.06:
+            # a caption that needs 13-15 rows: words of 17-32 characters, one per row
+            total = rng.choice([13, 14, 15, 15, 15])
+            per = [total // 4 + (1 if k < total % 4 else 0) for k in range(4)]
+            lines = [' '.join(gen_word(rng, rng.choice([17, 20, 31, 32])) for _ in range(k)) for k in per]
         # at most 15 rows on the screen
         while n_words(lines)[1] > 15:
             lines.pop()
@@ -180,6 +185,8 @@ def check(case, ctx):
                 ctx.count('long_words')
         if n_words(c['lines'])[1] >= 4:
             ctx.count('four_or_more_rows')
+        if n_words(c['lines'])[1] == 15:
+            ctx.count('captions_filling_all_15_rows')
     out = SCCWriter().write(dump.mk_caption_set(spec))
     fails = []
     lines = out.split('\n')
